@@ -92,7 +92,7 @@ public:
 private:
     template <typename Split>
     void do_split( blocked_range2d& r, Split& split_obj ) {
-        if ( my_rows.size()*double(my_cols.grainsize()) < my_cols.size()*double(my_rows.grainsize()) ) {
+        if ( is_relatively_smaller(my_rows, my_cols) ) {
             my_cols.my_begin = col_range_type::do_split(r.my_cols, split_obj);
         } else {
             my_rows.my_begin = row_range_type::do_split(r.my_rows, split_obj);
